@@ -19,6 +19,8 @@ import Golib.Proof.C06Mask
 import Golib.Proof.C06Count
 import Golib.Proof.C06Facts
 import Golib.Proof.C05Rebuild
+import Golib.Proof.C05Driver
+import Golib.Model.C06
 
 namespace Golib.C06
 open Golib Golib.C05
@@ -265,6 +267,18 @@ example : ((Trie.ofPatterns [[97, 98, 99, 100], [120, 98, 99, 121]]).bind fun t1
       ([[98, 99], [99]].foldl (fun t p => t.insert (decodeAll p)) t1).rebuild).bind
       (fun t2 => replaceWithMask t2 [97, 98, 99, 101] 42) = some [97, 42, 42, 101] := by
   decide +kernel
+
+/-- Histories of calls (wave 4) for the C06 driver (`runOp` = `mask` / `replace` / `sibling`, the
+loop is C05's): the answers already given do not depend on later calls (result stability; the
+harness' results ledger checks it of the real `Replace` / `ReplaceWithMask` strings, which are
+also fed back in as the next text), and a `mask` / `replace` call — whatever it answers, also
+a panic on a trie with patterns inserted since the last build — leaves the trie untouched. -/
+theorem c06_call_history :
+    (∀ (a b : List String) (s : Option DState),
+      (runOpsWith runOp s (a ++ b)).take a.length = runOpsWith runOp s a) ∧
+    (∀ (s s' : DState) (ts : List String), mutOp s ts = none →
+      (stepWith runOp s ts).2 = some s' → s'.t = s.t ∧ s'.dirty = s.dirty) :=
+  ⟨answers_prefix_stable runOp, query_keeps_trie runOp⟩
 
 /-- The source expressions and statements of `algz/trie.go` the model is written against
 (re-extracted by go/ast on every run into `Golib/Gen/FactsC06.lean`) are the ones the model
